@@ -25,6 +25,14 @@ CHECKS = {
         note="value menus of 2-4 values per attribute; no model: each trace is an implementation trace; hidden-field hash makes state merging sound",
         design="DESIGN.md §2 C11",
     ),
+    "C12": dict(
+        level="model_checking",
+        technique="explicit-state BFS over assignment histories on the real MolecularOrbitals class + full products over constructor/Shell arguments",
+        text="All histories of <=3 assignments/reads from every restricted/unrestricted start object (norba,norbb<=2 quick / <=3 thorough, 4 initial occupation patterns, 3 occs_aminusb settings) with "
+        "invariants, read-back and other-spin-unchanged oracles on every transition; full constructor product and all Shell argument combinations with every single shape mismatch.",
+        note="menus of 3 arrays per length plus wrong lengths n+1, n-1, 1 (broadcastable); invariants only demand what the statement says",
+        design="DESIGN.md §2 C12",
+    ),
     "C20": dict(
         level="exploration",
         technique="exhaustive enumeration of small finite input spaces (full Cartesian products) on the real functions, oracle by algebraic identities",
